@@ -123,6 +123,9 @@ const (
 	DialDefault DialVerdict = iota
 	DialRefuse
 	DialBlackhole
+	// DialLocalFailure: the connection attempt fails on this machine before anything is sent
+	// (no descriptor, no buffer space, no local address): Sim.DialLocalErr is returned
+	DialLocalFailure
 )
 
 type Violation struct {
@@ -153,6 +156,7 @@ type Sim struct {
 	Start         time.Time
 	Stats         map[string]int // fault kinds and probes, counted when they fire
 	DialHook      func(network, from, to string) DialVerdict
+	DialLocalErr  error
 	DialLog       []DialRec
 	invs          []func() *Violation
 	Viol          *Violation
@@ -960,6 +964,14 @@ func (s *Sim) completeDial(o *op) {
 		if o.t.IsZero() {
 			o.t = time.Now().Add(127 * time.Second) // kernel-ish connect timeout
 		}
+		return
+	case verdict == DialLocalFailure && s.DialLocalErr != nil:
+		s.Count("fault.dial.local_failure")
+		rec.Verdict = "local-failure"
+		s.DialLog = append(s.DialLog, rec)
+		s.J.Add(s, "dial", "%s>%s fails locally: %v", o.from, o.to, s.DialLocalErr)
+		o.err = s.DialLocalErr
+		s.finish(o)
 		return
 	case verdict == DialRefuse || !ok || l.closed:
 		if verdict == DialRefuse {
